@@ -151,6 +151,98 @@ def forced_window(chk):
     chk.coverage['forced_window_states'] = len(got_states)
 
 
+def death_after_completion(chk):
+  """A worker dies after its shard completed but before the control loop looks at the task again.
+
+  The loop is a generator: while the consumer does not pull it is suspended, so the order
+  `shard complete -> worker declared dead -> loop inspects the task` is forced, not raced."""
+  n, shards = 6, 2
+  ref_outs, ref_agg = in_process(n)
+  with dist.cluster(2, call_timeout=20.0, heartbeat_threshold=90.0) as c:
+    states_q = queue.SimpleQueue()
+    tasks = (lib_trace(n, i, shards) for i in range(shards))
+    outs = []
+
+    def run():
+      it = c.pool.iterate(tasks, generator_result_queue=states_q, retry_threshold=50, total_tasks=shards)
+      outs.append(next(it))
+      # wait until both shards were served completely and their coroutines are long finished
+      t0 = time.time()
+      while states_q.qsize() < shards and time.time() - t0 < 10:
+        time.sleep(0.01)
+      time.sleep(0.2)
+      c.kill(1)                      # the worker stops answering ...
+      dist.ScaledTime.jump(500.0)    # ... and its heartbeat is stale
+      for x in it:
+        outs.append(x)
+      return True
+
+    status, val = dist.run_with_deadline(run, 40)
+    got_states = []
+    while not states_q.empty():
+      s = states_q.get()
+      if hasattr(s, 'agg_state'):
+        got_states.append(s)
+  chk.replayed()
+  ctx = dict(kind='dist', scenario='worker dies after its shard completed, before the loop inspects the finished task')
+  if status != 'ok':
+    chk.violation(f'death-after-completion:{status}', f'{val!r}', ctx)
+    return
+  if len(got_states) != shards:
+    chk.violation('death-after-completion:state-count', f'{len(got_states)} aggregation states forwarded for {shards} completed shards', ctx)
+  extra = collections.Counter(outs) - collections.Counter(ref_outs)
+  if extra:
+    chk.violation('death-after-completion:outputs-redelivered', f'a completed shard was run again: extra outputs {sorted(extra.elements())}', ctx)
+
+
+def as_completed_plans(chk, rnd):
+  """orchestrate.as_completed: one-shot tasks retried on timeouts and disconnects."""
+  from ml_metrics._src.chainables import lazy_fns
+  n_tasks = 4
+  want = collections.Counter(lib.add100(10 * i) for i in range(n_tasks))
+  plans = [('fault-free', {}, {})]
+  for i in (1, 2, 3, 4):
+    plans.append((f'deadline call {i} of worker 1', {(0, i): 'deadline'}, {}))
+    plans.append((f'response-lost call {i} of worker 2', {(1, i): 'response_lost'}, {}))
+  plans.append(('die at call 2 of worker 2', {(1, 2): 'die'}, dict(call_timeout=0.0, threshold=70.0)))
+  for j in range(4 if chk.tier == 'quick' else 40):
+    p = {(rnd.choice([0, 1]), rnd.randint(1, 6)): rnd.choice(['deadline', 'response_lost']) for _ in range(rnd.choice([1, 2]))}
+    plans.append((f'random #{j}', p, {}))
+  for name, plan, opts in plans:
+    with dist.cluster(2, call_timeout=opts.get('call_timeout', 20.0), heartbeat_threshold=opts.get('threshold', 90.0)) as c:
+      for (w, i), outcome in plan.items():
+        c.plan(w, i, outcome)
+      got = []
+
+      def run():
+        tasks = (lazy_fns.trace(lib.add100)(10 * i) for i in range(n_tasks))
+        c.pool.wait_until_alive(deadline_secs=600, minimum_num_workers=2)    # as the documented use does
+        for x in c.mods.orchestrate.as_completed(c.pool, tasks):
+          got.append(x)
+        return True
+
+      status, val = dist.run_with_deadline(run, 25)
+      acquired = [w.address for w in c.pool.acquired_workers]
+      calls = len(fakecourier.BOARD.log)
+    chk.replayed()
+    ctx = dict(kind='dist', scenario=f'as_completed {name}', plan={f'{w}:{i}': str(o) for (w, i), o in plan.items()})
+    if status == 'hung':
+      chk.violation('as_completed:hung', f'[{name}] no end within the deadline after {calls} calls; results so far {sorted(got)}', ctx)
+      continue
+    if status == 'raised':
+      if isinstance(val, TimeoutError) and 'die' in plan.values():
+        # staleness is detected by (scaled) wall-clock time: under load the healthy worker may look stale for an
+        # instant too and as_completed then gives up with an explicit TimeoutError - loud, not lost or doubled work
+        chk.count('explicit_timeouts_in_death_scenarios')
+        continue
+      chk.violation(f'as_completed:unexpected-error:{type(val).__name__}', f'[{name}] {val!r}', ctx)
+      continue
+    if collections.Counter(got) != want:
+      chk.violation('as_completed:results', f'[{name}] results {sorted(got)} != {sorted(want.elements())}', ctx)
+    if acquired:
+      chk.violation('as_completed:workers-left-acquired', f'[{name}] {acquired}', ctx)
+
+
 def lib_trace(n, i, shards):
   from ml_metrics._src.chainables import lazy_fns
   return (lazy_fns.trace(lib.define_pipeline)(n, shard_index=i, num_shards=shards).make()
@@ -171,6 +263,7 @@ def body(chk):
       chk.machinery_failure('Sched.tla as implemented no longer exhibits the recorded double-forward: re-align spec and known_findings')
   # the design counter-example is decided on the real code
   forced_window(chk)
+  death_after_completion(chk)
   # 2. fault plans on the real code
   rnd = random.Random(chk.seed)
   n, shards, workers = 6, 3, 2
@@ -195,6 +288,9 @@ def body(chk):
     name = f'die at call {i} of worker 2'
     out = run_plan(n, shards, workers, {(1, i): 'die'}, call_timeout=0.0, threshold=70.0)
     chk.replayed()
+    if out['status'] == 'raised' and out['error_type'] == 'TimeoutError':
+      chk.count('explicit_timeouts_in_death_scenarios')      # see as_completed_plans: loud, timing dependent
+      continue
     judge(chk, name, n, out, {(1, i): 'die'})
   # retry budget exhausted -> TimeoutError, never a silently shorter result
   plan = {(w, i): 'deadline' for w in (0, 1) for i in range(1, 40)}
@@ -205,6 +301,14 @@ def body(chk):
   out = run_plan(n, shards, workers, {}, fail_on=(3,))
   chk.replayed()
   judge(chk, 'app-error element 3 raises', n, out, {}, expect_error=('RuntimeError', 'ValueError', 'ExceptionGroup'))
+  as_completed_plans(chk, rnd)
+  # one-shot tasks (as_completed, run) are the L = 0 instance of the same retry loop
+  consts0 = dict(Tasks={'t1', 't2', 't3'}, Workers={'w1', 'w2'}, L=0, Budget=2, Threshold=2, UsableWorker='w1', RecheckDone=True)
+  mc0 = tlc.run('dist', 'Sched', tlc.cfg_text(constants=consts0, invariants=['StateExactlyOnce', 'StateAtMostOnce'],
+                                               properties=['ErrorSurfaces', 'Termination']), timeout=1800)
+  chk.add_tlc(mc0, 'Sched/one-shot tasks')
+  if not mc0.ok:
+    chk.machinery_failure(f'Sched.tla with L=0 fails {mc0.error_name}')
   chk.add_samples([dict(plan=str(plans[3][1]), scenario=plans[3][0])])
   chk.coverage['fault_plans'] = len(plans) + 4
   chk.assumptions += [
